@@ -363,9 +363,10 @@ fn perm_one(args: &[String]) {
             return;
         }
     };
+    let shared = p.shared_names(seed, i);
     let mut runs = Vec::new();
     for order in perm_orders(seed, i, n, nperms) {
-        let src = p.render(&order);
+        let src = p.render_shared(&order, &shared);
         if verbose {
             println!("---- order {order:?}\n{src}");
         }
@@ -398,6 +399,7 @@ fn perm_one(args: &[String]) {
     rec["prog"] = json!(i);
     rec["seed"] = json!(seed);
     rec["runs"] = json!(runs);
+    rec["shared"] = json!(shared.len());
     rec.as_object_mut().unwrap().remove("perm");
     rec.as_object_mut().unwrap().remove("ptr");
     println!("{rec}");
